@@ -83,12 +83,15 @@ class Modules(object):
 
     def __init__(self):
         self.specs = []
-        self.meta = {}        # name -> (index, nfun, cases)
+        self.meta = {}        # name -> (index, nfun, cases, source)
+        self.solo = {}        # name -> function numbers that run in a child of their own
 
-    def add(self, name, exprs, cases, per_fun=120):
-        src, index, nfun = L.list_module(exprs, per_fun)
+    def add(self, name, exprs, cases, per_fun=120, solo=()):
+        """solo: positions of expressions that may kill the process (each runs in a child of its own)"""
+        src, index, nfun, solo_funs = L.list_module(exprs, per_fun, solo)
         self.specs.append(core.BuildSpec(name, src, kind="py"))
         self.meta[name] = (index, nfun, cases, src)
+        self.solo[name] = solo_funs
 
     def build_and_run(self, jobs):
         t0 = time.time()
@@ -99,16 +102,40 @@ class Modules(object):
             index, nfun, cases, src = self.meta[b.name]
             if not b.ok:
                 return b.name, None, "build:%s:%s" % (b.stage, (b.errors or "")[-1500:])
-            outf = os.path.join(b.dir, "obs.json")
-            ch = core.run_child(L.RUN_LISTS_CHILD, [os.path.dirname(b.so), b.name, str(nfun), outf], timeout=600)
-            if ch.rc != 0 or not os.path.exists(outf):
-                return b.name, None, "run:rc=%s signal=%s %s" % (ch.rc, ch.signal, ch.err[-800:])
-            with open(outf) as f:
-                per_fun = json.load(f)
+            per_fun = {}
+
+            def child(funs, tag):
+                outf = os.path.join(b.dir, "obs_%s.json" % tag)
+                ch = core.run_child(L.RUN_LISTS_CHILD, [os.path.dirname(b.so), b.name, json.dumps(funs), outf], timeout=600)
+                if ch.rc == 0 and os.path.exists(outf):
+                    with open(outf) as f:
+                        per_fun.update(json.load(f))
+                    return None
+                if ch.timed_out:
+                    return "TIMEOUT"
+                if ch.crashed:
+                    core.CRASH_LOGS.append({"module": b.name, "functions": funs[:5], "stderr": ch.err[-1500:]})
+                    return "CRASH:%d" % ch.signal
+                return "run:rc=%s %s" % (ch.rc, ch.err[-800:])
+            solo = set(self.solo.get(b.name, ()))
+            main = [i for i in range(nfun) if i not in solo]
+            st = child(main, "main") if main else None
+            if st is not None and not st.startswith("run:"):
+                # the process died: every function in a child of its own, the observation of a dead one is the signal
+                for i in main:
+                    st_i = child([i], "f%d" % i)
+                    if st_i is not None:
+                        per_fun[str(i)] = st_i
+            elif st is not None:
+                return b.name, None, st
+            for i in sorted(solo):
+                st_i = child([i], "f%d" % i)
+                if st_i is not None:
+                    per_fun[str(i)] = st_i
             obs = []
             for (fn, j, line) in index:
-                r = per_fun[fn]
-                obs.append(r if isinstance(r, str) else r[j])
+                r = per_fun.get(str(fn))
+                obs.append(r if (isinstance(r, str) or r is None) else r[j])
             return b.name, obs, None
 
         with concurrent.futures.ThreadPoolExecutor(max_workers=jobs) as ex:
@@ -443,7 +470,10 @@ def plan_fold(tier, rng, rep, tlcs, mods, plans):
     wnames = []
     for k in range(0, len(wl), per_mod):
         name = "c09wide%d" % (k // per_mod)
-        mods.add(name, wl[k:k + per_mod], wl[k:k + per_mod])
+        chunk = wl[k:k + per_mod]
+        # where the model reaches C undefined behaviour the process may die (7 // ((~7) << 63) divides by a C zero)
+        risky = [i for i, t_ in enumerate(chunk) if t_ in wtexts and wtexts[t_].model()[2] and ("//" in t_ or "%" in t_)]
+        mods.add(name, chunk, chunk, solo=risky)
         wnames.append(name)
     stats = {"published": len(cases), "skipped_by_spec": skipped, "by_kind": kinds, "hazards_in_model": len(hazards), "hazard_tags": hz_tags,
              "folded_in_model": folded, "negative_zero_results": negzero, "replayed": len(chosen), "wide_cases": len(wtexts), "sequence_cases": len(seqs)}
